@@ -115,7 +115,9 @@ ESchema(i) ==
     ("Q" :> DStruct("nsa", "P", <<Fld("q1", TRef("K"))>>, <<>>, FALSE)) @@
     ("R" :> DStruct("nsa", "P", <<Fld("r1", TNull(TRef("L")))>>, <<>>, FALSE)) @@
     ("U" :> DUnion("nsa", "", FALSE, <<Tag("tv", TVoid), Tag("tp", X), Tag("ts", TRef("E")), Tag("tn", TNull(TRef("S"))),
-                                        Tag("tt", TRef("P")), Tag("tu", TRef("K")), Tag("tl", TList(TRef("L"), Unset, Unset))>>)) @@
+                                        Tag("tt", TRef("P")), Tag("tu", TRef("K")), Tag("tl", TList(TRef("L"), Unset, Unset)),
+                                        \* members typed by a LEAF of the subtype tree (flattened like any struct), also nullable
+                                        Tag("tq", TRef("Q")), Tag("tqn", TNull(TRef("R")))>>)) @@
     ("V" :> DUnion("nsa", "U", FALSE, <<Tag("tw", TNull(TRef("L"))), Tag("tx", TVoid)>>))
 Examples(i) ==
     LET x == Slots[i].x IN
@@ -132,7 +134,8 @@ Examples(i) ==
     ("P" :> <<Ex("default", "q" :> XRef("default")), Ex("second", "r" :> XRef("withl"))>>) @@
     ("U" :> <<Ex("ex_tp", "tp" :> x), Ex("ex_ts", "ts" :> XRef("full")), Ex("ex_tn_null", "tn" :> XNull),
               Ex("ex_tn", "tn" :> XRef("alt")), Ex("ex_tt", "tt" :> XRef("second")), Ex("ex_tu", "tu" :> XRef("red")),
-              Ex("ex_tl", "tl" :> XList(<<XRef("default")>>))>>) @@
+              Ex("ex_tl", "tl" :> XList(<<XRef("default")>>)), Ex("ex_tq", "tq" :> XRef("default")),
+              Ex("ex_tqn", "tqn" :> XRef("withl")), Ex("ex_tqn_null", "tqn" :> XNull)>>) @@
     ("V" :> <<Ex("ex_tw", "tw" :> XRef("other")), Ex("ex_inherited", "ts" :> XRef("default"))>>) @@
     ("K" :> <<>>) @@ ("A" :> <<>>)
 ExByLabel(exs, n, label) == LET s == SelectSeq(exs[n], LAMBDA e : e.label = label) IN s
